@@ -22,6 +22,8 @@ type Invocation struct {
 	Front string `json:"front"` // drc | do-approve
 	Verb  string `json:"verb"`  // approve | compare
 	Spell string `json:"spell"` // drc only: abs | rel | ipv6
+	// drc only: called with --LOGFILE naming the log of a do-approve session
+	LogFile bool `json:"logfile,omitempty"`
 }
 
 // LockScenario is the replayable description of one C12 schedule.
@@ -75,6 +77,15 @@ func (le *lockEnv) args(inv Invocation) (prog string, args []string) {
 		args = append(args, "-C")
 	}
 	code := le.e.CodeFile("router")
+	if inv.LogFile {
+		// --LOGFILE names the file into which the session of a do-approve
+		// run for the current policy redirects its messages
+		ext := "drc"
+		if le.ls.Holder.Verb == "compare" {
+			ext = "compare"
+		}
+		args = append(args, "--LOGFILE", filepath.Join(filepath.Dir(filepath.Dir(code)), "log", "router."+ext))
+	}
 	switch inv.Spell {
 	case "rel":
 		rel, _ := filepath.Rel(le.e.Dir, code)
